@@ -182,12 +182,25 @@ def runSem (j : Json) : Json :=
               | [] => none)
            | _, _ => none)
         | none => none)
-      let cutL : List Nat := cellPairs.flatMap (fun (_, w, h, _, _, _) => [w, h])
+      -- always-written cells folded into one self-reading arithmetic combinator
+      let loopCells : List (Nat × Nat × Sig × Arg) := (List.range core.mems.size).filterMap (fun m =>
+        match core.mems[m]? with
+        | some cell =>
+          (match cell.writes, cell.ty with
+           | [WriteRule.always d], some ty =>
+             (match selfLoops c.circ (ren ty) with
+              | [e] => some (m, e, ren ty, d)
+              | _ => none)
+           | _, _ => none)
+        | none => none)
+      let cutL : List Nat := cellPairs.flatMap (fun (_, w, h, _, _, _) => [w, h]) ++ loopCells.map (fun (_, e, _, _) => e)
       let vc : Circuit := if stateful then c.circ.cut cutL else c.circ
       let memRoots : List (Nat × Bind) := (List.range core.nodes.size).filterMap (fun n =>
         match (core.nodes[n]? : Option CNode) with
         | some (CNode.memRead m _) =>
-          (cellPairs.find? (fun (m', _, _, _, _, _) => m' == m)).map (fun (_, w, h, ty, _, _) => (n, Bind.sum [w, h] ty))
+          match (cellPairs.find? (fun (m', _, _, _, _, _) => m' == m)).map (fun (_, w, h, ty, _, _) => (n, Bind.sum [w, h] ty)) with
+          | some r => some r
+          | none => (loopCells.find? (fun (m', _, _, _) => m' == m)).map (fun (_, e, ty, _) => (n, Bind.sum [e] ty))
         | _ => none)
       -- verified validator for the scalar fragment (theorem Facto.scalar_end_to_end)
       let roots : List (Nat × Bind) := core.named.toList.filterMap (fun nm =>
@@ -213,7 +226,7 @@ def runSem (j : Json) : Json :=
         | some (CNode.entOut k) => (entIdx k).map (fun i => (n, Bind.many [i]))
         | _ => none)
       let enablePairs : List (Nat × Arg) := enableObs.filterMap (fun o => o.enable.map (fun w => (o.idx, w)))
-      let bindArr := inferBindings vc core.nodes (memRoots ++ entOutRoots ++ roots ++ cellPairs.flatMap (fun (_, w, _, ty, d, en) => proposeGated c.circ core.nodes w ty d en)) enablePairs
+      let bindArr := inferBindings vc core.nodes (memRoots ++ entOutRoots ++ roots ++ cellPairs.flatMap (fun (_, w, _, ty, d, en) => proposeGated c.circ core.nodes w ty d en) ++ loopCells.flatMap (fun (_, e, ty, d) => proposeAlways c.circ core.nodes e ty d)) enablePairs
       let bindF : Nat → Option Bind := fun n => bindArr.getD n none
       let rank := computeRank vc
       let ranked := vc.checkRanked rank
@@ -227,6 +240,21 @@ def runSem (j : Json) : Json :=
           Json.mkObj [("mem", toJson m), ("write_gate", toJson w), ("hold_gate", toJson h), ("type", Json.str ty),
             ("proved", Json.bool (stateful && failing.isEmpty && cutOK c.circ cutL &&
               gatedCellIs c.circ vc core.nodes bindF w h ty d en))])).toArray),
+        ("loop_cells", Json.arr (loopCells.map (fun (m, e, ty, d) =>
+          Json.mkObj [("mem", toJson m), ("entity", toJson e), ("type", Json.str ty),
+            ("proved", Json.bool (stateful && failing.isEmpty && cutOK c.circ cutL &&
+              alwaysCellIs c.circ vc core.nodes bindF e ty d))])).toArray),
+        ("rings", Json.arr ((List.range core.mems.size).filterMap (fun m =>
+          match core.mems[m]? with
+          | some cell =>
+            (match cell.writes, cell.ty with
+             | [WriteRule.always d], some ty =>
+               -- theorem Facto.ring_end_to_end on the uncut circuit
+               (match discoverRing c.circ core.nodes (ren ty) m d with
+                | some (_, stages) => some (Json.mkObj [("mem", toJson m), ("latency", toJson stages.length), ("proved", Json.bool true)])
+                | none => some (Json.mkObj [("mem", toJson m), ("proved", Json.bool false)]))
+             | _, _ => none)
+          | none => none)).toArray),
         ("n_mems", core.mems.size),
         ("proved_names", Json.arr (if ranked && failing.isEmpty then
             -- a name is proved when its node is bound and the place it is observed at reads exactly that binding
